@@ -384,7 +384,32 @@ def r09_8(run, model):
     run.floor("arms of compile_expr", n, 15)
 
 
+def r09_9(run, model):
+    run.rule("R09.9", "field initialisers of a struct literal run in the order they are written: the typer reorders them into declaration "
+                      "order for the positional constructor, so source order has to be re-established by binding them first (a let per "
+                      "initialiser) - or the constructor arguments must stay in source order")
+    CHECK = "crates/compiler/src/typer/check.rs"
+    BUILD = "crates/compiler/src/typer/tast_builder.rs"
+    f = model.fn("infer_struct_literal_expr", CHECK, impl="Typer")
+    txt = S.norm_ws(run.facts.text(CHECK, f.body["sp"]))
+    reorders = "ordered_args" in txt or "field_positions" in txt
+    # does any stage bind the initialisers in source order?  (typer result or the TAST builder's struct-literal arm)
+    rebinds = "ELet" in txt
+    for g in model.fns(BUILD):
+        if g.body is None:
+            continue
+        for m in S.find(g.body, "Match"):
+            for arm in m["arms"]:
+                if "EStructLiteral" in S.norm_ws(run.facts.text(BUILD, arm["pat"]["sp"])) and "ELet" in S.norm_ws(run.facts.text(BUILD, arm["body"]["sp"])):
+                    rebinds = True
+    ok = (not reorders) or rebinds
+    run.ob("R09.9", "struct literal|initialisers evaluated in source order", ok, site(CHECK, f.node["sp"]),
+           f"arguments reordered to declaration order: {reorders}; initialisers bound in source order first: {rebinds}",
+           witness="struct Point { x, y }: Point { y: f(), x: g() } emits `t3 = g(); t4 = f()` - g runs before f")
+
+
 def run(run, model):
+    run.try_rule(r09_9, model)
     run.try_rule(r09_8, model)
     run.try_rule(r09_6, model)
     from rules import c01
